@@ -13,6 +13,13 @@ for name in sorted(res):
 k = sum(1 for v in res.values() if v['verdict'] == 'CAUGHT')
 table = '\n'.join(rows) + '\n\n%d of %d stored changes are caught by the check of the property they were seeded against.' % (k, len(res))
 rep = rep.replace('SEEDTABLE', table)
+stored = sorted(os.listdir(os.path.join(ROOT, 'seeded')))
+norec = [n for n in stored if n not in res]
+missed = [n for n in res if res[n]['verdict'] != 'CAUGHT']
+summ = '%d have a recorded verdict from a run of their property check, %d of them CAUGHT' % (len(res), k)
+if missed: summ += ' (not caught: %s)' % ', '.join(missed)
+if norec: summ += '; %d stored changes have no recorded verdict yet (their property checks are the slowest ones and were not re-run against them before the session ended: %s)' % (len(norec), ', '.join(norec))
+rep = rep.replace('SEEDSUMMARY', summ + '.')
 import sys
 sys.path.insert(0, os.path.join(ROOT, 'gocv'))
 from claims import CLAIMS, NOT_APPLICABLE
